@@ -293,13 +293,19 @@ func cmdDump(args []string) int {
 	return 0
 }
 
-func litDefs() string {
+func litDefs() string { return "" }
+
+// litDefsFor declares the string literals that occur in the given query text (in content order).
+func litDefsFor(body string) string {
 	specMu.Lock()
 	defer specMu.Unlock()
 	var sb strings.Builder
 	var cs []string
 	for _, v := range specLitOrder {
 		c := specLits[v]
+		if !strings.Contains(body, c) {
+			continue
+		}
 		cs = append(cs, c)
 		sb.WriteString(fmt.Sprintf("(declare-const %s Str)\n", c))
 		var fs []string
